@@ -49,6 +49,8 @@ def mk_engine(fb, inline_depth=6, no_inline=None, **kw):
         if no_inline and no_inline(b):
             return False
         return True
+    # a private trait of the analysed crate with a single implementation in the shipped build is looked through
+    kw.setdefault('unique_impls', True)
     return psi.Engine(fb, inline_depth=inline_depth, summaries=SUMMARIES, inline_filter=flt, **kw)
 
 
@@ -416,6 +418,29 @@ def impls_of(fb, fn):
     return _IMPLS[1].get((tr.split('<')[0], meth), [])
 
 
+def concrete_type_args(fb, body, name, depth=0):
+    """the concrete types a type parameter `name` of the generic function `body` is instantiated with at its call sites
+    in the workspace (followed through generic callers)"""
+    out = set()
+    gens = list(getattr(body, 'generics', None) or [])
+    if name not in gens or depth > 4:
+        return out
+    ix = gens.index(name)
+    for cb in fb.bodies():
+        for bb, t, fn in cb.calls():
+            if not fn or body.path not in {mir.callee_name(fn), fn['path']}:
+                continue
+            targs = ((fn.get('resolved') or {}).get('targs')) or fn.get('targs') or []
+            if len(targs) != len(gens):
+                continue
+            tt = cb.crate.types[targs[ix]]
+            if tt.get('k') == 'param':
+                out |= concrete_type_args(fb, cb, tt['s'], depth + 1)
+            else:
+                out.add(tt['s'])
+    return out
+
+
 def callee_bodies(fb, fn):
     """bodies a call site can run: the resolved workspace function / closure, else every workspace impl of the trait method"""
     nm = mir.callee_name(fn)
@@ -722,9 +747,15 @@ def callers_map(fb):
         for bb, t, fn in b.calls():
             if not fn:
                 continue
+            hit = False
             for nm in {mir.callee_name(fn), fn['path']}:
                 if fb.body(nm) is not None and nm != b.path:
                     m.setdefault(nm, set()).add(b.path)
+                    hit = True
+            if not hit:
+                for nb in impls_of(fb, fn):         # a trait method on a type parameter: every implementation may be the callee
+                    if nb.path != b.path:
+                        m.setdefault(nb.path, set()).add(b.path)
     _CALLERS[0], _CALLERS[1] = fb, m
     return m
 
